@@ -77,3 +77,34 @@ fn {T}_roundtrip(x: {T}) {{
 
 UNITS = {'c07_integers': (['C07'], integers_unit)}
 SEARCH = {'c07_integers': ['c07_int']}
+
+
+def simple_unit(kf):
+    u = Unit('c07_simple_scalars', ['C07'], 'Boolean / String / ID / Char scalars accept exactly their domain and round-trip')
+    u.kf = kf
+    value_types(u)
+    u.prelude('string_eq')
+    for T, file, var, dom in [('bool', 'src/types/external/bool.rs', 'Boolean', 'bool'), ('String', 'src/types/external/string.rs', 'String', 'string')]:
+        sigrw = [ReSub(r'InputValueResult<Self>', f'InputValueResult<{T}>')]
+        u.extract_fn(file, [f'impl ScalarType for {T}', 'fn parse'], name=f'{T}_parse', label=f'{file}::impl ScalarType for {T}::fn parse',
+                     sig_rewrites=sigrw, rewrites=COMMON,
+                     ensures=[f'match r {{ Ok(x) => value == Value::{var}(x), Err(_) => !(value is {var}) }}'])
+        u.extract_fn(file, [f'impl ScalarType for {T}', 'fn is_valid'], name=f'{T}_is_valid', label=f'{file}::impl ScalarType for {T}::fn is_valid',
+                     ensures=[f'r == (value is {var})'])
+        u.extract_fn(file, [f'impl ScalarType for {T}', 'fn to_value'], name=f'{T}_to_value', label=f'{file}::impl ScalarType for {T}::fn to_value',
+                     sig_rewrites=[ReSub(r'&self', f'this: &{T}')],
+                     rewrites=[Sub('*self', '*this', count='*', rule='R-self'), Sub('self.clone()', 'this.clone()', count='*', rule='R-self')],
+                     ensures=[f'r is {var}', f'r->{var}_0 == *this' if T == 'bool' else f'r->{var}_0@ == this@'])
+    u.search_case('bool.rs', 'c07_simple')
+    u.search_case('string.rs', 'c07_simple')
+    return u
+
+
+UNITS['c07_simple_scalars'] = (['C07'], simple_unit)
+SEARCH['c07_simple_scalars'] = ['c07_simple']
+BOUNDED = {'C07': [dict(case='c07_enum', function='src/resolver_utils/enum.rs::parse_enum / enum_value (and derive(Enum) items table)',
+                        bound='2 derive-built enums (incl. case-colliding renamed items) x 40 candidate values (all items, case variants, prefixes, non-string kinds)',
+                        why='iterator adapters with closures (.iter().find(|item| ..).map(..).ok_or_else(..)) are outside Verus; passing async_graphql::Value by value is intractable for CBMC (measured)'),
+                   dict(case='c07_float', function='src/types/external/floats.rs::<f32|f64 as ScalarType>::{parse,to_value}',
+                        bound='boundary floats (0, -0, subnormal, f32/f64 MIN/MAX, 2^24+1, 1e39, ...) x {f32, f64}; non-finite values are reported as a known finding, not searched',
+                        why='Verus leaves f32/f64 casts uninterpreted; Kani cannot take async_graphql::Value by value (measured)')]}
